@@ -60,37 +60,6 @@ func (p *Program) String() string {
 	return b.String()
 }
 
-func randFilter(rng *rand.Rand) FilterSpec {
-	pick := func() int { return rng.IntN(4) }
-	arr := func() []int {
-		n := 1 + rng.IntN(3)
-		seen := map[int]bool{}
-		var out []int
-		for len(out) < n {
-			v := pick()
-			if !seen[v] {
-				seen[v] = true
-				out = append(out, v)
-			}
-		}
-		return out
-	}
-	switch rng.IntN(8) {
-	case 0, 1, 2:
-		return FilterSpec{Kind: 0}
-	case 3:
-		return FilterSpec{Kind: 1, A: []int{pick()}}
-	case 4:
-		return FilterSpec{Kind: 2, A: arr()}
-	case 5:
-		return FilterSpec{Kind: 3, A: arr()}
-	case 6:
-		return FilterSpec{Kind: 4, A: []int{pick()}, B: []int{pick()}}
-	default:
-		return FilterSpec{Kind: 5, A: arr(), B: []int{pick()}}
-	}
-}
-
 // GenProgram builds a random program of 20–200 actions over 1–3 keys and 2–16 clients.
 // faults adds the C13 fault sequences (failing Start, failing start-up hooks, stale updater use).
 func GenProgram(rng *rand.Rand, faults bool, hookable bool) *Program {
@@ -217,11 +186,11 @@ func GenProgram(rng *rand.Rand, faults bool, hookable bool) *Program {
 			if rng.IntN(4) == 0 {
 				lane = ctlLane // a second goroutine of the same source: Update calls may overlap
 			}
-			add(Action{Kind: "ev", Lane: lane, Key: k, G: rng.IntN(4)})
+			add(Action{Kind: "ev", Lane: lane, Key: k, G: rng.IntN(NumGroups)})
 		case w < 74:
 			s := la[rng.IntN(len(la))]
 			k := p.Specs[s].Key
-			add(Action{Kind: "evsub", Lane: srcLane(k), Key: k, Sub: s, G: rng.IntN(4)})
+			add(Action{Kind: "evsub", Lane: srcLane(k), Key: k, Sub: s, G: rng.IntN(NumGroups)})
 		case w < 79:
 			k := rng.IntN(p.Keys)
 			add(Action{Kind: "hb", Lane: ctlLane, Key: k})
@@ -257,7 +226,7 @@ func GenProgram(rng *rand.Rand, faults bool, hookable bool) *Program {
 			if kind == "ev" && rng.IntN(2) == 0 {
 				back = 0 // a second goroutine of the source emitting next to the key's own lane
 			}
-			add(Action{Kind: kind, Lane: ctlLane, Key: k, Back: back, G: rng.IntN(4)})
+			add(Action{Kind: kind, Lane: ctlLane, Key: k, Back: back, G: rng.IntN(NumGroups)})
 		default:
 			add(Action{Kind: "barrier", Wait: true})
 		}
